@@ -152,7 +152,29 @@ def predicate(R, ctx):
     ff = 'parameters::file_spec::FileSpec::filter_files'
     listing_table(R, ctx, rd)
     family_table(R, ctx, ff)
+    suffix_agreement(R, ctx)
     infix_tables(R, ctx)
+
+
+def suffix_agreement(R, ctx, rule='R14.2'):
+    """writer / reader agreement on the suffix: names are assembled by appending the configured suffix verbatim, the family predicate
+    compares Path::extension() - the text after the LAST dot - with that suffix.  Unless a setter restricts the suffix to dot-free
+    text, a suffix like `log.txt` is never matched: the logger's own files are not recognised (F27)."""
+    f = ctx.f
+    setters = [b for b in f.fn_bodies() if re.search(r'^parameters::file_spec::FileSpec::(o_suffix|suffix|try_from)$', b.path)]
+    validated = any(re.search(r"str>?::(contains|find|split|rsplit|rfind|chars|bytes)$|char::is_alphanumeric$", callee_name(t)) and b.path.endswith('o_suffix')
+                    for b in setters for (_, _, t) in calls_with_closures(f, b))
+    ff = f.bodies['parameters::file_spec::FileSpec::filter_files']
+    by_extension = any(callee_name(t) == 'std::path::Path::extension' for (_, _, t) in calls_with_closures(f, ff)) or \
+        any(callee_name(t) == 'std::path::Path::extension' for q in ctx.cg.reachable([ff.path], spawn=False) if q in f.bodies and only_called_from(ctx.cg, root_fn(q), {ff.path})
+            for _, t in f.bodies[q].calls())
+    if by_extension and not validated:
+        R.bad(rule, 'suffix-containing-a-dot-never-matches',
+              "FileSpec::o_suffix stores any text, as_pathbuf appends it verbatim, but filter_files compares it with Path::extension() (the text after the LAST dot): "
+              "with a suffix such as `log.txt` no file of the logger's own family is recognised - existing_log_files is empty, cleanup removes nothing, a restart "
+              "numbers from r00000 again and renames over earlier files", where=ff.loc())
+    else:
+        R.ok(rule, 'suffix-containing-a-dot-never-matches', 'suffix restricted by its setter, or not compared through Path::extension')
 
 
 def listing_table(R, ctx, rd):
